@@ -253,6 +253,9 @@ def update_before_generate(ctx, rule="R11.7"):
 
 
 def run(ctx):
+    from ..small import none_default_rule
+
+    none_default_rule(ctx, "R11.8", ["field/", "random/"], 20)
     generator_coherence(ctx)
     lint_is(ctx)
     private_copy(ctx)
